@@ -1,6 +1,7 @@
 //! iwe-verif: correspondence check (Lean model vs real code) and property oracles.
 //! Usage: iwe-verif <PROPERTY> --tier quick|thorough --seed N --model <driver> --out <json>
 mod act;
+mod cli;
 mod dump;
 mod events;
 mod gen;
